@@ -1,18 +1,18 @@
-\* (i) Bidirectional - SEEDED FAULT (C12/r2m3, not in the code): the adapter's CloseWrite closes a
-\* Writer that is only an io.Closer.  THIS RUN MUST FAIL with "Invariant BReverseKeepsFlowing is violated":
-\* tunnel side of shape same-closer (one full-duplex conn behind Reader and Writer), the local side
-\* half-closes first -> tryCloseWrite(tunnel) closes the whole tunnel conn while tunnel->local is live.
+\* (i) Bidirectional - DEVIATION (neighbour of C12/r3m2, not in the code): when one direction finishes, an absolute
+\* WRITE deadline (SetWriteDeadline / SetDeadline) is put on the conns of the surviving direction.  THIS RUN MUST FAIL
+\* with "Invariant BNoSpuriousWriteEnd is violated": time passes, the surviving direction's Write times out although
+\* its destination is open and reading.
 CONSTANTS
   MaxSend = 1
   EofWithData = TRUE
   ShapesA <- LocalShapes
   ShapesB <- AllShapes
-  DevDeadlineAt = "none"
-  DevDeadlineHits = {"read"}
+  DevDeadlineAt = "halfclose"
+  DevDeadlineHits = {"write"}
   Monitor = FALSE
   IdleMax = 2
   DevMonNoFeed = FALSE
-  DevCloseWriterFallback = TRUE
+  DevCloseWriterFallback = FALSE
   Emit = FALSE
   Classes = {1}
   BatchSize = 32
@@ -36,5 +36,5 @@ CONSTANTS
   DevDropOnClose = FALSE
 INIT BInit
 NEXT BNext
-INVARIANTS BTypeOK BPipe BComplete BReverseKeepsFlowing BNoSpuriousEnd BNoDeadline
+INVARIANTS BTypeOK BPipe BComplete BReverseKeepsFlowing BNoSpuriousEnd BNoSpuriousWriteEnd
 CHECK_DEADLOCK FALSE
